@@ -68,7 +68,10 @@ func c15Body(s *simkit.Sim, rc *simkit.RunCtx) {
 	for i := 0; i < nn; i++ {
 		names = append(names, fmt.Sprintf("n%d", i+1))
 	}
-	gossip := func(c *network.Config) { c.ProtocolV2.GossipInterval = 500; c.ProtocolV2.PayloadRetryDelay = 2 * time.Second }
+	gossip := func(c *network.Config) {
+		c.ProtocolV2.GossipInterval = 500
+		c.ProtocolV2.PayloadRetryDelay = 2 * time.Second
+	}
 	for _, name := range names {
 		if _, err := w.StartNode(world.NodeOpts{Name: name, DIDMethods: "nuts", NetConfig: gossip}); err != nil {
 			s.Fail("C15.harness", "start", "%v", err)
